@@ -9,6 +9,7 @@ import sys
 sys.path.insert(0, os.path.dirname(os.path.abspath(__file__)))
 from vlib import common as C  # noqa: E402
 from vlib import engine_checks  # noqa: E402
+from vlib import cmp_checks  # noqa: E402
 
 ENGINE_PROPS = set(engine_checks.LEVEL)
 
@@ -18,6 +19,8 @@ def cmd_check(args):
     tier = os.environ.get("VERIF_TIER", args.tier)
     if prop in ENGINE_PROPS:
         return engine_checks.run_check(prop, tier)
+    if prop in ("C13", "C14"):
+        return cmp_checks.run_check(prop, tier)
     print("no check registered for %s" % prop)
     return 2
 
